@@ -7,7 +7,7 @@ n >= 1 load/save cycles; saves run against a SimFile writer that can fail at any
 call (EIO, ENOSPC, cancellation, short write); two actors' suspended chunks() writers
 are advanced alternately under a seeded schedule.
 """
-from .. import builder, chunkio, env, files, seeds, simio, snapshot  # noqa: F401
+from .. import builder, chunkio, env, files, seeds, simio, snapshot, noise  # noqa: F401
 from ..runner import Acc
 from ..simio import Ctx, HarnessTimeout, SimCancel, active
 
@@ -185,6 +185,9 @@ def execute(case):
     nontrivial = False
     for i, op in enumerate(case["ops"]):
         k = op["k"]
+        if k == "bgload":
+            noise.run(op)
+            continue
         try:
             if k == "load":
                 label = files.spec_label(op["file"])
@@ -499,6 +502,7 @@ def generate(seed, i, tier="quick"):
     elif r.random() < 0.05:
         ops[0] = {"k": "build_nested", "seed": r.getrandbits(30), "n": r.randint(0, 12), "inner": r.random() < 0.5}
         ops[1] = {"k": "save"}
+    noise.sprinkle(r, ops)
     return {"property": PROPERTY, "world": "cycles", "layout": 2, "ops": ops}
 
 
